@@ -115,7 +115,24 @@ func runCase(idx int, in *caseInput) *caseResult {
 		res.internal = err.Error()
 		return res
 	}
-	if res.binJSON, err = runBinary(binPath, tmpRoot, []string{"-C", dir, "--json"}, true); err != nil {
+	// the repository may be named in any spelling that denotes it: absolute, with a trailing
+	// separator, relative to the working directory, with a leading "./", or "." from inside it
+	rel := filepath.Base(dir)
+	jcwd, jdir := tmpRoot, dir
+	switch idx % 6 {
+	case 1:
+		jdir = dir + string(filepath.Separator)
+	case 2:
+		jdir = rel
+	case 3:
+		jdir = "./" + rel + "/"
+	case 4:
+		jcwd, jdir = dir, "."
+	case 5:
+		jdir = filepath.Join(tmpRoot, ".", rel, "..", rel)
+		jdir = tmpRoot + "/./" + rel
+	}
+	if res.binJSON, err = runBinary(binPath, jcwd, []string{"-C", jdir, "--json"}, true); err != nil {
 		res.internal = err.Error()
 		return res
 	}
@@ -588,7 +605,7 @@ func runBatch(rep *report.Report, drv string, cases []*caseInput, corpusCases, o
 		}
 		implRun := res.bin.answer()
 		if j := res.binJSON.answer(); j != implRun {
-			dis("readable vs --json", implRun, j, "the reported set and exit status do not depend on the output mode or on the run (map iteration order)")
+			dis("readable vs --json", implRun, j+" | stderr of the --json run: "+res.binJSON.stderr, "the reported set and exit status do not depend on the output mode or on the run (map iteration order)")
 		}
 		if g := res.gitCmp.answer(); g != implRun {
 			dis("binary vs in-process git.Compare", implRun, g, "")
